@@ -78,6 +78,8 @@ def catalogue_full():
     cat.append(G.shape_indirect_register('sp', (5, 3), 'suffix', decorator=('plus_plus', False)))
     cat.append(G.shape_indirect_register('sp', (5, 3), 'prefix', offset=8, decorator=('minus_minus', True)))
     cat.append(G.shape_indirect_register('x', (2, 2), 'suffix', offset=8, decorator=('at', False)))
+    cat.append(G.shape_indexed('sp', (1, 3), 8, 'suffix', indirect=True, decorator=('plus_plus', False)))
+    cat.append(G.shape_indexed('x', (2, 2), 8, 'prefix', indirect=True, decorator=('minus', True), reg_index=('a', 1, 1)))
     for w in (8, 12, 16, 24):
         for e in (None, 'little'):
             cat.append(G.shape_address(w, True, e))
